@@ -211,10 +211,14 @@ func (wh *writeHelper) updateCleanSchemaTagsCheck(r *influx.Row, dropTagIndex *[
 					setLastFieldEndTime(endTime, fieldToCreatePool)
 				}
 			}
-			if mst.EngineType == config.COLUMNSTORE {
-				if schemaVal.Typ != influx.Field_Type_Tag {
+			if schemaVal.Typ != influx.Field_Type_Tag {
+				if mst.EngineType == config.COLUMNSTORE {
 					return fieldToUpdateEndTime, fieldToCreatePool, true, errno.NewError(errno.WritePointHasInvalidTag, tag.Key)
 				}
+				return fieldToUpdateEndTime, fieldToCreatePool, true, errno.NewError(errno.FieldTypeConflict, tag.Key, originName,
+					influx.FieldTypeString(influx.Field_Type_Tag), influx.FieldTypeString(int32(schemaVal.Typ))).SetModule(errno.ModuleWrite)
+			}
+			if mst.EngineType == config.COLUMNSTORE {
 				m := wh.mstPrimaryKeyRowMap[r.Name]
 				if _, exist := m[tag.Key]; exist {
 					(*pkCount)++
@@ -335,15 +339,21 @@ func (wh *writeHelper) updateSchemaCheck(database, rp string, r *influx.Row, mst
 			return fieldToCreatePool, true, err
 		}
 
-		if _, ok := schemaMap.GetTyp(tag.Key); !ok {
+		v, ok := schemaMap.GetTyp(tag.Key)
+		if !ok {
 			fieldToCreatePool = appendField(fieldToCreatePool, tag.Key, influx.Field_Type_Tag)
 			continue
 		}
-		if mst.EngineType == config.COLUMNSTORE {
-			v, _ := schemaMap.GetTyp(tag.Key)
-			if v != influx.Field_Type_Tag {
+		if v != influx.Field_Type_Tag {
+			// the key is a field of the measurement: stored as a tag it would split the series and
+			// could never be read back (the schema maps a name to one type)
+			if mst.EngineType == config.COLUMNSTORE {
 				return fieldToCreatePool, true, errno.NewError(errno.WritePointHasInvalidTag, tag.Key)
 			}
+			return fieldToCreatePool, true, errno.NewError(errno.FieldTypeConflict, tag.Key, originName,
+				influx.FieldTypeString(influx.Field_Type_Tag), influx.FieldTypeString(v)).SetModule(errno.ModuleWrite)
+		}
+		if mst.EngineType == config.COLUMNSTORE {
 			m := wh.mstPrimaryKeyRowMap[r.Name]
 			if _, exist := m[tag.Key]; exist {
 				pkCount++
